@@ -56,6 +56,9 @@ STRENGTHENED = {
  "C14-q": "title formats that index into a tuple attribute and use a `!r` conversion",
  "C17-q": "constructors that sort a list argument in place; the list given in both orders",
  "C19-p": "oracle: the pair named by an assignment is bound afterwards ('every such assignment succeeds'; was tie-only)",
+ "C07-d": "oracle: neighbors() itself judged against the link order of the snapshot (`travh.spec_neighbors`; was tie-only until round 8)",
+ "C07-f": "oracle: neighbors() itself judged against the link order of the snapshot (was tie-only until round 8)",
+ "C16-d": "oracle: the FORWARD neighbours of every member judged against the link order of the snapshot (was tie-only until round 8)",
  "C06-p": "NOT caught, and not a violation on the domain: `uni not in start.universes` equals `start not in uni.vertices` in every state the public API can reach (C02); its demo needs a `copy.copy` ghost or value-equal twins (boundary, 12.3)"}
 ROUND = {"a": 1, "b": 1, "c": 2, "d": 3, "e": 4, "f": 5, "g": 6, "h": 6, "i": 7, "j": 7, "k": 7, "l": 7, "p": 8, "q": 8}
 
